@@ -7,3 +7,9 @@ import PhyloModel.Props.C20
 #print axioms C20.path_queries_never_panic
 #print axioms C20.root_queries_never_panic
 #print axioms C20.traversals_never_panic
+#print axioms C20.phylip_strict_never_panics
+#print axioms C20.distance_matrix_total
+#print axioms C20.upgma_step_total
+#print axioms C20.upgma_total
+#print axioms C20.edits_total
+#print axioms C20.cli_collapse_total
